@@ -193,7 +193,7 @@ package keeper
 //@ loop 1 continue [propagate]  callsok("SendPacket") && callsok("ABIDecode") && callsok("EventByID") && callsok("Unpack") && callsok("Marshal") && callsok("Unmarshal")
 //@ loop 1 continue [each-once]  ncalls("SendPacket") <= 1
 //@ loop 1 continue [matching-logs-sent] log.Address == packetcontract.PacketContractAddress && len(log.Topics) != 0 && ncalls("EventByID") == 1 && callres("EventByID", 0).Name == types.PacketSendEvent ==> ncalls("SendPacket") == 1
-//@ ensures [all-logs-visited] err == nil ==> !returnedInLoop(1)
+//@ ensures [all-logs-visited] err == nil ==> loopCompleted(1)
 //@ loop 1 invariant [receipts] receiptsKept(old(xibc(ctx)), xibc(ctx))
 //@ loop 1 invariant [acks]     acksKept(old(xibc(ctx)), xibc(ctx))
 //@ ensures [receipts-kept] receiptsKept(old(xibc(ctx)), xibc(ctx))
